@@ -98,6 +98,9 @@ inductive Action where
   | tick (d : Nat)                     -- time passes
   | failedUpload                       -- a compaction whose result never became visible (upload failed before
                                        -- meta.json): a ULID is used up, the bucket shows no new block
+  | readFault                          -- a read of meta.json / a marker fails during a sync: at most the
+                                       -- iteration is aborted, the bucket is not touched (C33: an incomplete view
+                                       -- never leads to a write)
 deriving Repr
 
 def findBlk (blocks : List Blk) (i : Nat) : Option Blk := blocks.find? (fun b => b.id == i)
@@ -162,6 +165,7 @@ def step (P : Params) (s : State) : Action → Option State
   | .tick d =>
     if s.gws.all (gwOk P (s.now + d)) then some { s with now := s.now + d } else none
   | .failedUpload => some { s with nextId := s.nextId + 1 }
+  | .readFault => some s
 
 def run (P : Params) : State → List Action → Option State
   | s, [] => some s
